@@ -48,6 +48,13 @@ Proof. exact chunking_independent4. Qed.
 Theorem c05_stream_no_panic : forall fl max chunks t, ~ In (EvPanic t) (fst (run_stream4 fl max chunks)).
 Proof. exact stream_no_panic. Qed.
 
+Theorem c05_read_no_out_of_fuel : forall fl bs max rest, read fl bs max <> Malformed OutOfFuel rest.
+Proof. exact read_no_out_of_fuel. Qed.
+
+Theorem c05_stream_no_out_of_fuel : forall fl max chunks,
+  ~ In (EvError OutOfFuel) (fst (run_stream4 fl max chunks)).
+Proof. exact stream_no_out_of_fuel. Qed.
+
 Theorem c05_decodable_example :
   exists bs, write Client 100 ex_connect5 = Ok (bs, 14) /\ read Client bs 100 = Packet ex_connect5 []
              /\ read Broker bs 100 = Malformed InvalidProtocolLevel [].
